@@ -1,11 +1,18 @@
-"""C07, loading: the identifiers of a jugfile's tasks do not depend on HOW or HOW OFTEN the file is loaded.
+"""C07, loading: the identifiers of a jugfile's tasks depend neither on HOW or HOW OFTEN the file is loaded, nor on what the
+results directory already holds, nor on the process environment.
 
-Runs in a SEPARATE interpreter (its own PYTHONHASHSEED):
-    python -m harness.c07load <dir with the jugfiles> <out.json>
-Every jugfile <dir>/proj/<name>.py is loaded with the real jug.jug.init several times in THIS process - through a relative
-path, the absolute path, ./path, a path with a redundant component, from another working directory, after another jugfile
-was loaded in between - and after each load the (task name, identifier) list of jug.task.alltasks and the identifiers of the
-tasklets the jugfile defines are recorded."""
+Runs in a SEPARATE interpreter (its own PYTHONHASHSEED, environment, working directory, umask, argv):
+    python -m harness.c07load <plan.json> <out.json> [ignored extra arguments]
+plan = {"root": dir, "umask": int|null, "steps": [step, ..]} ; a step is
+  {"op": "loads", "dir": <dir with jugfiles, relative to root>}      every jugfile *.py of that directory is loaded with the real
+        jug.jug.init ten times in THIS process (relative, absolute, ./, redundant components, from other working directories) into a
+        fresh in-memory store; after each load the (task name, identifier) list of jug.task.alltasks and the tasklets are recorded
+  {"op": "project", "dir": d, "jugfile": f, "jugdir": j, "ways": [..]}  chdir(root/d); load f against the file store j (relative,
+        absolute or ./ path); records for every variable of the jugfile that is a Task / Tasklet / mapped sequence / list of those:
+        Task.hash(), __jug_hash__() and hash_one() of it
+  {"op": "run", "dir": d, "jugfile": f, "jugdir": j, "only": [task names] | null}   load, then run (in definition order) the tasks
+        not yet stored whose name is in `only` (all, if null)
+  {"op": "cleanup", "dir": d, "jugfile": f, "jugdir": j}               load, then store.cleanup(the tasks of this load)"""
 import json
 import os
 import sys
@@ -14,6 +21,8 @@ from . import jugrun
 import jug
 import jug.jug
 import jug.task
+import jug.mapreduce
+from jug.hash import hash_one
 
 
 def snapshot(space):
@@ -33,9 +42,8 @@ def load(path, cwd):
     return snapshot(space)
 
 
-def main():
-    root, out = os.path.abspath(sys.argv[1]), sys.argv[2]
-    proj = os.path.join(root, 'proj')
+def loads(root, sub):
+    proj = os.path.join(root, sub)
     other = os.path.join(root, 'elsewhere')
     names = sorted(f for f in os.listdir(proj) if f.endswith('.py') and not f.startswith('_'))
     res = []
@@ -45,19 +53,113 @@ def main():
                 ('absolute', os.path.join(proj, nm), proj),
                 ('./relative', './' + nm, proj),
                 ('relative after absolute', nm, proj),
-                ('from the parent directory', os.path.join('proj', nm), root),
-                ('from another directory', os.path.join('..', 'proj', nm), other),
-                ('redundant component', os.path.join('..', 'proj', '.', nm), proj),
+                ('from the parent directory', os.path.join(sub, nm), root),
+                ('from another directory', os.path.join('..', sub, nm), other),
+                ('redundant component', os.path.join('..', sub, '.', nm), proj),
                 ('absolute from elsewhere', os.path.join(proj, nm), other),
                 ('relative at last', nm, proj)]
-        for k, (how, path, cwd) in enumerate(ways):
+        for how, path, cwd in ways:
             rec = {'jugfile': nm, 'how': how, 'path': path, 'cwd': os.path.relpath(cwd, root), 'nth_load_in_process': len(res) + 1}
             try:
                 rec.update(load(path, cwd))
             except BaseException as e:
                 rec['error'] = '%s: %s' % (type(e).__name__, e)
             res.append(rec)
-    json.dump(res, open(out, 'w'))
+    return res
+
+
+def idents(o):
+    """every way the identifier of one object is obtained"""
+    d = {}
+    if isinstance(o, jug.task.Task):
+        d['hash()'] = o.hash()
+    if hasattr(o, '__jug_hash__'):
+        d['__jug_hash__()'] = o.__jug_hash__()
+    d['hash_one()'] = hash_one(o)
+    return dict((k, v.decode() if isinstance(v, bytes) else str(v)) for k, v in d.items())
+
+
+def is_obj(v):
+    return isinstance(v, (jug.task.Task, jug.task.Tasklet, jug.mapreduce.block_access, jug.mapreduce.block_access_slice))
+
+
+def open_project(root, st, way='relative'):
+    d = os.path.join(root, st['dir'])
+    os.chdir(d)
+    jf, jd = st['jugfile'], st['jugdir']
+    if way == 'absolute':
+        jf, jd = os.path.join(d, jf), os.path.join(d, jd)
+    elif way == './relative':
+        jf, jd = './' + jf, './' + jd
+    del jug.task.alltasks[:]
+    store, space = jug.jug.init(jf, jd, on_error='propagate')
+    return store, space
+
+
+def project(root, st):
+    out = []
+    for way in st.get('ways', ['relative']):
+        rec = {'how': way, 'dir': st['dir'], 'cwd': os.path.join(root, st['dir'])}
+        try:
+            store, space = open_project(root, st, way)
+            objs = {}
+            for k in sorted(space):
+                v = space[k]
+                if k.startswith('_'):
+                    continue
+                if is_obj(v):
+                    objs[k] = idents(v)
+                elif isinstance(v, (list, tuple)) and v and all(is_obj(x) for x in v):
+                    for i, x in enumerate(v):
+                        objs['%s[%d]' % (k, i)] = idents(x)
+            rec['objects'] = objs
+            rec['n_tasks'] = len(jug.task.alltasks)
+            store.close()
+        except BaseException as e:
+            rec['error'] = '%s: %s' % (type(e).__name__, e)
+        out.append(rec)
+    return out
+
+
+def run(root, st):
+    store, space = open_project(root, st)
+    ran = []
+    for t in list(jug.task.alltasks):
+        if st.get('only') is not None and t.name not in st['only']:
+            continue
+        if not t.can_load():
+            t.run()
+            ran.append(t.name)
+    store.close()
+    return {'ran': ran}
+
+
+def cleanup(root, st):
+    store, space = open_project(root, st)
+    n = store.cleanup(list(jug.task.alltasks), keeplocks=False)
+    store.close()
+    return {'removed': n}
+
+
+def main():
+    plan = json.load(open(sys.argv[1]))
+    root = os.path.abspath(plan['root'])
+    if plan.get('umask') is not None:
+        os.umask(plan['umask'])
+    out = []
+    for st in plan['steps']:
+        try:
+            if st['op'] == 'loads':
+                out.append({'op': 'loads', 'records': loads(root, st['dir'])})
+            elif st['op'] == 'project':
+                out.append({'op': 'project', 'records': project(root, st)})
+            elif st['op'] == 'run':
+                out.append(dict(run(root, st), op='run'))
+            elif st['op'] == 'cleanup':
+                out.append(dict(cleanup(root, st), op='cleanup'))
+        except BaseException as e:
+            out.append({'op': st['op'], 'error': '%s: %s' % (type(e).__name__, e)})
+    json.dump(out, open(sys.argv[2], 'w'))
 
 
 if __name__ == '__main__':
